@@ -60,7 +60,27 @@ def load_models():
     n_files = len(models)
     for name, xml in xf.generated_models():
         models.append(("generated/" + name, xml))
+    # wide-named twins: every name / label attribute is followed by a long run of 2-, 3- and 4-byte characters, so that whatever
+    # the loader cuts, quotes or measures in BYTES (a start tag shortened for a diagnostic, a column, a prefix) falls inside a
+    # character for most offsets; the fault enumeration then provokes every diagnostic on these documents as well
+    gen = [m for m in models[n_files:]]
+    stride = [models[k] for k in range(0, n_files, max(1, n_files // 6))][:6]
+    for k, (name, xml) in enumerate(gen + stride):
+        models.append(("wide/" + name, widen(xml, k)))
     return models, n_files
+
+
+WIDE = "ż總😀éß中𐀀ü—ا"
+
+
+def widen(xml, k):
+    run = (WIDE[k % len(WIDE):] + WIDE[:k % len(WIDE)]) * 3
+    pad = "x" * (k % 4)  # shifts the byte offsets of what follows by 0..3
+
+    def sub(m):
+        return m.group(1) + m.group(2) + " " + pad + run + m.group(3)
+
+    return re.sub(r'(\s(?:name|label|outputLabel)=")([^"]*)(")', sub, xml)
 
 
 def model_info(mi):
